@@ -17,6 +17,9 @@ def text_match(tm, value):
     if col == "i;ascii-casemap":
         a, b = ascii_upper(a), ascii_upper(b)
     elif col == "i;unicode-casemap":
+        if any(c in a or c in b for c in "ßıſﬁİ"):
+            # RFC 5051 (title-case mapping + decomposition) and str.casefold() disagree on these
+            raise Undefined("unicode-casemap special case")
         a, b = a.casefold(), b.casefold()
     elif col == "i;octet":
         pass
